@@ -7,11 +7,8 @@ open Chess
 
 def optSq : Option Sq → String | none => "-" | some s => toString s.val
 
-/-- spec-level stepping: one step in the named direction, nothing at the edge -/
-def stepSpec (s : Sq) (df dr : Int) : Option Sq := Chess.sq? (s.file + df) (s.rank + dr)
-/-- wrapping variant: coordinates modulo 8 -/
-def stepWrap (s : Sq) (df dr : Int) : Sq :=
-  ⟨(((s.rank + dr) % 8).toNat % 8) * 8 + (((s.file + df) % 8).toNat % 8), by omega⟩
+def stepSpec := Geom.step
+def stepWrap := Geom.stepWrap
 
 def crOfNat (n : Nat) : CastleRights := CastleRights.fromIndex n
 
